@@ -42,6 +42,43 @@ def all_targets(eng):
     return out
 
 
+def expand_splits(eng, cls):
+    """Case splits of a receiver class that are verified as separate targets (in parallel): the class of a
+    polymorphic object field (and, for _Linear, its regression variant)."""
+    from . import spec as specmod
+    import re
+    out = [{}]
+    if cls is None:
+        return out
+    decls = specmod.class_fields(eng.repo, cls)
+
+    def variants(prefix, decl):
+        m = re.match(r'^str:\{(.*)\}', decl)
+        if m:
+            return [{prefix: a.strip()} for a in m.group(1).split('|')]
+        m = re.match(r'^obj:\{(.*)\}', decl)
+        if m:
+            res = []
+            for a in m.group(1).split('|'):
+                a = a.strip()
+                sub = specmod.class_fields(eng.repo, a)
+                inner = [{}]
+                for f, d in sub.items():
+                    if d.startswith('str:{'):
+                        inner = variants(prefix + '_' + f, d)
+                for i in inner:
+                    r = {prefix: a}
+                    r.update(i)
+                    res.append(r)
+            return res
+        return None
+    for f, d in decls.items():
+        v = variants('self_' + f, d.replace(' const', ''))
+        if v:
+            out = [dict(a, **b) for a in out for b in v]
+    return out
+
+
 def props_of_spec(sp):
     ps = set(sp.props)
     for cl in sp.requires + sp.ensures + sp.ensures_raises:
@@ -54,11 +91,12 @@ _ENG = None
 
 
 def _gen_worker(target):
-    qual, cls = target
+    qual, cls = target[0], target[1]
+    forced = dict(target[2]) if len(target) > 2 else None
     from . import smt
     t0 = time.time()
     try:
-        obs, probs = _ENG.verify(qual, cls)
+        obs, probs = _ENG.verify(qual, cls, forced=forced)
         obs = dedupe(obs)
         out = []
         for ob in obs:
@@ -81,7 +119,7 @@ def generate(eng, targets, jobs=16):
     else:
         for t in targets:
             results.append(_gen_worker(t))
-    results.sort(key=lambda r: (r[0][0], r[0][1] or ''))
+    results.sort(key=lambda r: (r[0][0], r[0][1] or '', r[0][2:]))
     return results
 
 
@@ -161,7 +199,11 @@ def run_property(eng, prop, args):
             missing.append(qual)
         else:
             targets.append((qual, cls))
-    gen = generate(eng, sorted(set(targets)), args.jobs)
+    split = []
+    for qual, cls in sorted(set(targets)):
+        for f in expand_splits(eng, cls):
+            split.append((qual, cls, tuple(sorted(f.items()))))
+    gen = generate(eng, split, args.jobs)
     records = []
     problems = []
     crashes = []
@@ -281,7 +323,7 @@ def write_evidence(eng, prop, tier, seed, targets, records, problems, known_hits
             'obligations': n, 'discharged': d,
             'checker_cmd': 'python3-vt -m pyvc.main %s --tier %s' % (prop, tier),
             'trusted_base': trusted,
-            'functions_under_contract': sorted('%s[%s]' % t if t[1] else t[0] for t in targets),
+            'functions_under_contract': sorted('%s[%s]' % (t[0], t[1]) if t[1] else t[0] for t in targets),
             'obligations_by_kind': kinds,
             'discharged_by_backend': backends,
             'solver_seconds': round(sum(r['seconds'] for r in records), 2),
